@@ -534,6 +534,14 @@ def r_types_cache(ck: Checker, rule: str = "R-TYPES-CACHE") -> None:
                              construct=f"_populate_type_dicts: {norm(early)[:60]} creates the entry before the fields are classified: when the classification raises "
                              "(unresolved forward reference, invalid annotation) an empty entry stays behind and later lookups are answered from it")
                 return
+    # the entries are the classifier's verdicts themselves: a FieldTypeInfo re-derived with get_type_info(...) carries the ABC-based
+    # `is_collection` flag (a node class implementing the Collection protocol in a single child field becomes a sequence of children)
+    rederive = [c for fn_ in (f.raw, f.node) if fn_ is not None for c in ast.walk(fn_) if isinstance(c, ast.Call) and (dotted(c.func) or "").split(".")[-1] == "get_type_info"]
+    if rederive:
+        ck.violation(rule, f, rederive[0], "the per-class tables hold what process_node_fields returned (the classifier's own FieldTypeInfo per field)", positive=True,
+                     construct=f"_populate_type_dicts: {norm(rederive[0])[:60]} re-derives the field info: for a child field the sequence flag then comes from an abstract-collection test "
+                     "instead of from the annotation being a tuple")
+        return
     # entries for *other* classes (bases back-filled from the subclass's tables): positive pattern — a loop over the MRO / the bases in
     # _populate_type_dicts that stores into the tables (directly or through a helper that does)
     raw_ = f.raw or f.node
